@@ -164,6 +164,10 @@ pub fn enforce_general_constraints<E: FieldElement>(
         result[i] = are_equal(frame.stack_item_next(i) * flag_sum, expected_next_item);
     }
 
+    // MSTREAM and PIPE leave the stack unchanged from position 8 onwards, except for the memory
+    // address in position 12, which is incremented by two.
+    result[12] -= (op_flag.mstream() + op_flag.pipe()) * E::from(2u32);
+
     // enforces constraint on the last element in the stack in the next trace.
     let flag_sum = op_flag.no_shift_at(15) + op_flag.right_shift_at(14);
     let expected_next_item = op_flag.no_shift_at(15) * frame.stack_item(15)
